@@ -14,7 +14,7 @@ try:
         print(f"MUTATION NOT APPLICABLE: {s.count(old)} occurrences of the old text"); sys.exit(3)
     open(p, "w").write(s.replace(old, new))
     for i in ids:
-        env = dict(os.environ, RESONAATE_SRC=os.path.join(wt, "src"))
+        env = dict(os.environ, RESONAATE_SRC=os.path.join(wt, "src"), VERIF_OUT=os.path.join(wt, "out", "verif_out"))
         r = subprocess.run(["./check", i, tier], cwd="/verif", env=env, capture_output=True, text=True)
         lines = [l[:260] for l in r.stdout.splitlines() if l.startswith(("VIOLATION", "[", "INCONCLUSIVE", "KNOWN"))]
         print(f"== {i} exit={r.returncode}")
